@@ -8,8 +8,8 @@ Definition othread := ((N * N) * (N * N) * bool * thread_json * list stack_key *
 (* observed per-thread tables: stringArray (content ids), resourceTable.lib / name, funcTable.name / resource, frameTable.func / address / nativeSymbol,
    nativeSymbols.libIndex / address / name *)
 Definition otables := (list N * list nat * list nat * list nat * list (option nat) * list nat * list (option N) * list (option nat) * list nat * list N * list nat *
-                        (list (option nat) * list (option N) * list (option N) * list N) * (list nat * list nat))%type.
-   (* ... and funcTable.fileName, frameTable.line / column / inlineDepth; frameTable.category / subcategory *)
+                        (list (option nat) * list (option N) * list (option N) * list N) * (list nat * list nat) * (list bool * list bool))%type.
+   (* ... and funcTable.fileName, frameTable.line / column / inlineDepth; frameTable.category / subcategory; funcTable.isJS / relevantForJS *)
 
 Record c03case := mkCase {
   cp_procs : list (N * N);                                   (* pid, start *)
@@ -30,7 +30,10 @@ Record c03case := mkCase {
   cp_req_sc : list (option nat);                             (* per request of cp_reqs: the subcategory handle it was given - None = CategoryHandle::OTHER, Some j = what the j-th cp_cops call returned *)
   ob_cats : list (N * N * list N);                           (* meta.categories: name, colour, subcategories *)
   cp_mcats : list (nat * option nat);                        (* per add_marker call: thread handle, the category of the marker's schema (None = Other, Some j = what the j-th cp_cops call returned) *)
-  ob_mcats : list (list nat) }.                              (* per JSON thread: markers.category *)
+  ob_mcats : list (list nat);                                (* per JSON thread: markers.category *)
+  cp_req_fl : list N;                                        (* per request of cp_reqs: the frame flags it was given (bit 0 IS_JS, bit 1 IS_RELEVANT_FOR_JS) *)
+  cp_allocs : list (nat * N * list nat);                     (* add_allocation_sample: thread handle, time, frames root first (content ids) *)
+  ob_allocs : list (list (N * option nat)) }.                (* per JSON thread: nativeAllocations (time, stack); [] when the table is absent *)
 
 Fixpoint listnat_eqb (a b : list nat) : bool :=
   match a, b with [], [] => true | x :: a', y :: b' => Nat.eqb x y && listnat_eqb a' b' | _, _ => false end.
@@ -67,19 +70,22 @@ Definition translate (used : list nat) (r : freq) : freq :=
                     (match index_of Nat.eqb nslib used with Some i => i | None => 0%nat end) nsaddr nm fl ln cl d ln2
   | x => x
   end.
-Definition model_tables (reqs : list (nat * freq * (nat * nat))) (h : nat) : otables :=
+Definition model_tables (reqs : list (nat * freq * (nat * nat * N))) (h : nat) : otables :=
   let used := used_libs (map fst reqs) in
   let t := run_reqs (map (fun r => (translate used (snd (fst r)), snd r)) (filter (fun r => Nat.eqb (fst (fst r)) h) reqs)) in
   (tt_strings t, tt_res_lib t, tt_res_name t, map fu_name (tt_funcs t), tt_func_res t, tt_frame_func t, map (fun k => option_map ni_rel (fk_native k)) (tt_frames t),
    map (fun k => match fk_native k with Some ni => ni_ns ni | None => None end) (tt_frames t), map fst (tt_ns t), map snd (tt_ns t), tt_ns_name t,
    (map fu_file (tt_funcs t), map fk_line (tt_frames t), map fk_col (tt_frames t), map (fun k => match fk_native k with Some ni => ni_depth ni | None => 0 end) (tt_frames t)),
-   (map (fun k => fst (fk_sub k)) (tt_frames t), map (fun k => snd (fk_sub k)) (tt_frames t))).
+   (map (fun k => fst (fk_sub k)) (tt_frames t), map (fun k => snd (fk_sub k)) (tt_frames t)),
+   (map (fun k => N.testbit (fu_flags k) 0) (tt_funcs t), map (fun k => N.testbit (fu_flags k) 1) (tt_funcs t))).
+Fixpoint listbool_eqb (a b : list bool) : bool :=
+  match a, b with [], [] => true | x :: a', y :: b' => Bool.eqb x y && listbool_eqb a' b' | _, _ => false end.
 Definition otables_eqb (a b : otables) : bool :=
-  let '(s1, rl1, rn1, fn1, fr1, ff1, fa1, fs1, nl1, na1, nn1, (fl1, ln1, cl1, dp1), (ca1, sb1)) := a in
-  let '(s2, rl2, rn2, fn2, fr2, ff2, fa2, fs2, nl2, na2, nn2, (fl2, ln2, cl2, dp2), (ca2, sb2)) := b in
+  let '(s1, rl1, rn1, fn1, fr1, ff1, fa1, fs1, nl1, na1, nn1, (fl1, ln1, cl1, dp1), (ca1, sb1), (js1, rj1)) := a in
+  let '(s2, rl2, rn2, fn2, fr2, ff2, fa2, fs2, nl2, na2, nn2, (fl2, ln2, cl2, dp2), (ca2, sb2), (js2, rj2)) := b in
   listN_eqb s1 s2 && listnat_eqb rl1 rl2 && listnat_eqb rn1 rn2 && listnat_eqb fn1 fn2 && liston_eqb fr1 fr2 && listnat_eqb ff1 ff2 && listoN_eqb fa1 fa2 &&
   liston_eqb fs1 fs2 && listnat_eqb nl1 nl2 && listN_eqb na1 na2 && listnat_eqb nn1 nn2 &&
-  liston_eqb fl1 fl2 && listoN_eqb ln1 ln2 && listoN_eqb cl1 cl2 && listN_eqb dp1 dp2 && listnat_eqb ca1 ca2 && listnat_eqb sb1 sb2.
+  liston_eqb fl1 fl2 && listoN_eqb ln1 ln2 && listoN_eqb cl1 cl2 && listN_eqb dp1 dp2 && listnat_eqb ca1 ca2 && listnat_eqb sb1 sb2 && listbool_eqb js1 js2 && listbool_eqb rj1 rj2.
 
 (* markers of thread h as the model stores and serializes them: every registration, and this thread's add_marker calls *)
 Definition model_markers (mops : list (option nat * N * mop)) (h : nat) : option (list (N * list N)) :=
@@ -134,7 +140,7 @@ Fixpoint cats_eqb (a : list cat) (b : list (N * N * list N)) : bool :=
   end.
 (* every (category, subcategory) stored in a frame row exists in meta.categories *)
 Definition subs_in_range (cats : list (N * N * list N)) (o : otables) : bool :=
-  let '(_, _, _, _, _, _, _, _, _, _, _, _, (ca, sb)) := o in
+  let '(_, _, _, _, _, _, _, _, _, _, _, _, (ca, sb), _) := o in
   Nat.eqb (length ca) (length sb) &&
   forallb (fun x => match nth_error cats (fst x) with Some (_, _, subs) => Nat.ltb (snd x) (length subs) | None => false end) (combine ca sb).
 
@@ -178,7 +184,20 @@ Definition verdict (c : c03case) : N :=
                       match find_thread os (tid_of h) with
                       | Some (_, o) => existsb (fun st => listnat_eqb (frames_of (ot_stacks o) st) frames) (ot_mstacks o)
                       | None => false
-                      end) (cp_mstacks c) in
+                      end) (cp_mstacks c) &&
+    (* allocation samples are kept on the first thread of the process (Process::thread_handle_for_allocations); walking the stored stack
+       in that thread's stack table gives the frames the caller supplied *)
+    Nat.eqb (length (ob_allocs c)) (length os) &&
+    forallb (fun s => let '(h, time, frames) := s in
+                      let ph := fst (nth h tkeys (0%nat, (false, 0, None, (0, 0)))) in
+                      match find (fun i => Nat.eqb (fst (nth i tkeys (0%nat, (false, 0, None, (0, 0))))) ph) (seq 0 (length tkeys)) with
+                      | Some a =>
+                          match find_thread os (tid_of a) with
+                          | Some (idx, o) => existsb (fun row => (fst row =? time) && listnat_eqb (frames_of (ot_stacks o) (snd row)) frames) (nth idx (ob_allocs c) [])
+                          | None => false
+                          end
+                      | None => false
+                      end) (cp_allocs c) in
   (* model conformance: same order of threads, same pid strings *)
   let conform :=
     Nat.eqb (length os) (length m_order) &&
@@ -192,11 +211,12 @@ Definition verdict (c : c03case) : N :=
   (* L1: the frame / func / resource / string tables and the used-library order are exactly the model's *)
   let cres := crun (cp_other c) (cats_init (cp_other c) (cp_gray c), []) (cp_cops c) in
   let hs := match cres with Some st => snd st | None => [] end in
-  let reqs3 := map (fun x => (fst x, match snd x with None => (0%nat, 0%nat) | Some j => nth j hs (0%nat, 0%nat) end)) (combine (cp_reqs c) (cp_req_sc c)) in
+  let reqs3 := map (fun x => (fst x, (match fst (snd x) with None => (0%nat, 0%nat) | Some j => nth j hs (0%nat, 0%nat) end, snd (snd x))))
+                   (combine (cp_reqs c) (combine (cp_req_sc c) (cp_req_fl c))) in
   let tables_ok :=
     listnat_eqb (used_libs (cp_reqs c)) (ob_libs c) &&
     Nat.eqb (length (ob_tables c)) (length m_order) &&
-    Nat.eqb (length (cp_reqs c)) (length (cp_req_sc c)) &&
+    Nat.eqb (length (cp_reqs c)) (length (cp_req_sc c)) && Nat.eqb (length (cp_reqs c)) (length (cp_req_fl c)) &&
     forallb (fun x => otables_eqb (model_tables reqs3 (fst x)) (snd x)) (combine m_order (ob_tables c)) &&
     (* the category table: the model's (Model/Categories.v) *)
     match cres with Some st => cats_eqb (fst st) (ob_cats c) | None => false end in
